@@ -1178,7 +1178,8 @@ Theorem collect_exact_thm : forall h rg minptr maxptr order tls stack fuel rg' f
   forall p, In p fin <-> registered rg p = true /\ is_root rg p = false /\ ~ reach h rg tls stack p.
 Proof.
   intros h rg minptr maxptr order tls stack fuel rg' fin Hr Ho Hc p.
-  unfold collect in Hc. apply bind_ok in Hc. destruct Hc as (m' & Hm & Hs). inversion Hs as [Hs'].
+  unfold collect in Hc. apply bind_ok in Hc. destruct Hc as (m' & Hm & Hs).
+  assert (Hs' : sweep rg order m' = (rg', fin)) by congruence.
   destruct (sweep_spec rg order m' rg' fin Hs') as (F & _ & _).
   pose proof (mark_exact_thm h rg minptr maxptr order tls stack fuel m' Hr Ho Hm p) as E.
   rewrite F. split.
@@ -1186,5 +1187,5 @@ Proof.
     intros Hreach. assert (marked m' p = true) by (apply E; auto). congruence.
   - intros (Hreg & Hroot & Hn). split; [apply Ho; exact Hreg|]. split; [exact Hreg|]. split; [exact Hroot|].
     destruct (marked m' p) eqn:Hmk; [|reflexivity].
-    apply E in Hmk. destruct Hmk as [_ [Hx|Hx]]; [congruence|contradiction].
+    destruct (proj1 E eq_refl) as [_ [Hx|Hx]]; [congruence|contradiction].
 Qed.
